@@ -37,8 +37,27 @@ PROPS = {
    note="Trusts the reference model and the legal-outcome relaxation under memory pressure for the process_shared back-end.",
    technique="deterministic simulation (simulated clock, real shared-memory allocator) + reference model of eviction, seeded search with minimised replay",
    design_ref="DESIGN.md s4 C08, s3 E2"),
+ "C09": dict(engine="E3 cache-conc", src="e3_cache_conc", variants=["tsan", "asan"], level="exploration",
+   seconds={"quick": 40, "thorough": 600},
+   rule="cases = (2..8 threads x 1..10 cache ops each over 1..3 keys / 0..2 triggers, limit in {0,1,2,4}, optional sequential prefix) x a seeded schedule (random walk, PCT depth 1..3, run-to-block) that decides every interleaving at "
+        "each rwlock/mutex operation inside the real cache. Each run: TSan (tsan variant) or ASan/UBSan (asan variant) watches the real accesses; the recorded invoke/return history (stamped with a global event counter) is searched for a linearization against "
+        "the sequential cache model (Wing-Gong-Lowe with memoisation, <= 40 ops, <= 2e6 states, else counted inconclusive). non-trivial = history contains >= 1 pair of time-overlapping operations by different threads on the same key/trigger; distinct = distinct schedule trace hash",
+   fault_keys=[],
+   probe_keys=["rw_contended", "overlapping_same_key_pairs", "strategy_pct", "strategy_random", "strategy_run_to_block", "lin_inconclusive"],
+   components={"real": ["cppcms::impl::mem_cache<thread_settings> incl. its locking (booster::shared_mutex = pthread_rwlock, std::mutex lru_mutex)", "real OS threads (std::thread), parked/released one at a time"],
+               "stub": ["thread scheduler (simk: decides who runs at every intercepted lock operation)", "clock (fixed during the concurrent phase)"]},
+   assumptions=["preemption only at intercepted synchronisation operations: sound for data-race-free code, and the DRF premise is what TSan checks on the same runs",
+                "TSan happens-before is computed from the cache's own real pthread lock operations (the scheduler parks threads with raw futexes that TSan does not see, simulator TUs are not instrumented)",
+                "linearizability search capped at 2e6 states per history; capped searches are reported as inconclusive, never as violations",
+                "sampling of schedules, not enumeration"],
+   category="exploration",
+   text="Deterministic simulation of real threads on the real cache: a seeded scheduler picks every interleaving at lock operations; ThreadSanitizer/ASan watch each run and every recorded history is checked for linearizability against the sequential model. Evidence over sampled schedules and histories.",
+   note="Trusts TSan's happens-before analysis, the sequential cache model and the interception of all synchronisation the cache uses (pthread mutex/rwlock).",
+   technique="deterministic simulation: seeded thread scheduler over real threads (parked at intercepted lock operations) + TSan + linearizability checking against a sequential model",
+   design_ref="DESIGN.md s4 C09, s3 E3"),
 }
 
 ENGINES = [
+ {"name": "E3 cache-conc", "path": "harness/e3_cache_conc.cpp", "serves_properties": ["C09"], "kind_free_text": "real threads on the real cache under the seeded scheduler; TSan/ASan + linearizability checker"},
  {"name": "E2 cache-seq", "path": "harness/e2_cache_seq.cpp", "serves_properties": ["C07", "C08"], "kind_free_text": "real cache back-ends + cache_interface vs sequential model under simulated clock (sim/simk)"},
 ]
